@@ -161,29 +161,8 @@ func run(sc *scenario) (coq string, tags []string, err error) {
 	emit := func(at *big.Int, body string) {
 		evs = append(evs, fmt.Sprintf("Ev %s (%s)", at.String(), body))
 	}
-	negs := negTrackers{}
 	// the observed outcome of one TakeTokens, followed on the exact reference
 	observeTake := func(o *opSpec, at *big.Int, keys []keySpec, n int64, ok bool, exc int) {
-		defer func() {
-			negs.sync(ref, at, keys, false)
-			if ok {
-				for _, k := range keys {
-					if t := negs[k]; t != nil && t.admit(n) {
-						tagset[tagNegPeriod] = true
-					}
-				}
-			} else {
-				// refused by a later limit although this bucket, holding fewer than n, comes first
-				for _, k := range keys {
-					if k.Name == exc {
-						break
-					}
-					if t := negs[k]; t != nil && t.fresh >= 0 && n > t.fresh {
-						tagset[tagNegPeriod] = true
-					}
-				}
-			}
-		}()
 		nref, explained, early, xok, xexc := ref.follow(at, keys, n, ok, exc)
 		if early {
 			tagset["bridge:request-1ns-short-admitted-by-rounding"] = true
@@ -278,7 +257,6 @@ func run(sc *scenario) (coq string, tags []string, err error) {
 			_, applicable := reqKeys(sc.Limits, q)
 			for _, l := range applicable {
 				ref.set(at, l.keyOf(q), l.defaultState())
-				negs.sync(ref, at, []keySpec{l.keyOf(q)}, true)
 			}
 			emit(at, fmt.Sprintf("OResetLimits %s", q.coq()))
 		case "get", "rtrip":
@@ -286,12 +264,7 @@ func run(sc *scenario) (coq string, tags []string, err error) {
 			found := gerr == nil
 			s := fromIrates(st)
 			o.Obs.Found, o.Obs.State = &found, &s
-			q, fractional, norm := ref.takenExact(at, *o.Key)
 			xfound, xs := ref.get(at, *o.Key)
-			negs.sync(ref, at, []keySpec{*o.Key}, false)
-			if t := negs[*o.Key]; t != nil && found && t.get(int64(s.Taken)) {
-				tagset[tagNegPeriod] = true
-			}
 			// +-1: float truncation of burst - tokens
 			if xfound != found || xs.Period != s.Period || xs.Max != s.Max || absDiff(xs.Taken, s.Taken) > 1 {
 				xdiff++
@@ -300,12 +273,8 @@ func run(sc *scenario) (coq string, tags []string, err error) {
 			}
 			emit(at, fmt.Sprintf("OGet %s %s %s", o.Key.coq(), kit.Bool(found), s.coq()))
 			if o.Kind == "rtrip" && found { // write the reported state back
-				if norm && fractional && int64(s.Taken) <= q {
-					tagset[tagRoundTrip] = true // the report dropped a fraction of a taken token
-				}
 				_ = buckets.SetBucketState(o.Key.bucketKey(), st)
 				ref.set(at, *o.Key, s)
-				negs.sync(ref, at, []keySpec{*o.Key}, true)
 				emit(at, fmt.Sprintf("OSet %s %s true", o.Key.coq(), s.coq()))
 			}
 		case "set":
@@ -316,18 +285,10 @@ func run(sc *scenario) (coq string, tags []string, err error) {
 				xdiff++
 				o.Obs.ExactDiff = "exact model: found differs"
 			}
-			negs.sync(ref, at, []keySpec{*o.Key}, true)
 			emit(at, fmt.Sprintf("OSet %s %s %s", o.Key.coq(), o.State.coq(), kit.Bool(found)))
 		case "reset":
 			buckets.ResetRateBuckets(qname(o.Name), o.State.irates())
 			ref.reset(at, o.Name, *o.State)
-			var named []keySpec
-			for k := range ref.buckets {
-				if k.Name == o.Name {
-					named = append(named, k)
-				}
-			}
-			negs.sync(ref, at, named, true)
 			emit(at, fmt.Sprintf("OReset %d %s", o.Name, o.State.coq()))
 		default:
 			return "", nil, fmt.Errorf("unknown op kind %q", o.Kind)
@@ -354,7 +315,8 @@ func run(sc *scenario) (coq string, tags []string, err error) {
 // an observable that no behaviour of the exact model explains is attributed to the configuration
 // of the buckets involved: up to a period of 2^53 ns float rounding stays below one nanosecond of
 // credit (the measured domain of the bridge); up to 2^62 ns (the domain of the theorems) it can
-// move a decision by a few ns without touching the statement; beyond, the code mis-decides (F18)
+// move a decision by more without touching the statement (the code mis-decided beyond 2^62 ns until
+// ca6594b47, F18)
 func diffTag(ref *xsys, keys []keySpec) string {
 	var worst int64
 	for _, k := range keys {
@@ -364,7 +326,7 @@ func diffTag(ref *xsys, keys []keySpec) string {
 	}
 	switch {
 	case worst > f18Period:
-		return "F18:extreme-period-misdecision"
+		return "bridge:observed-outside-exact-model-period>2^62ns"
 	case worst >= periodDomain:
 		return "bridge:observed-outside-exact-model-period>=2^53ns"
 	}
